@@ -704,6 +704,31 @@ func runIterScript(t *tensor.Dense, script string) (string, []int) {
 				out = append(out, fmt.Sprintf("%d@%s", i, showInts(it.Coord())))
 				offs = append(offs, i)
 			}
+		case 's':
+			i, err := it.Start()
+			if err != nil {
+				out = append(out, "sE")
+			} else {
+				out = append(out, "s"+strconv.Itoa(i))
+			}
+		case 'C':
+			var got []string
+			for i := range it.Chan() {
+				got = append(got, strconv.Itoa(i))
+			}
+			out = append(out, "C"+strings.Join(got, ","))
+		case 'L':
+			got, err := it.Slice(nil)
+			if _, noop := err.(tensor.NoOpError); err != nil && !noop {
+				out = append(out, "LE")
+			} else {
+				ss := make([]string, len(got))
+				for i, g := range got {
+					ss[i] = strconv.Itoa(g)
+				}
+				// Slice(nil) hands back the exhaustion (no-op) error of its last Next together with the indices
+				out = append(out, "L"+strings.Join(ss, ",")+map[bool]string{true: "!", false: ""}[err != nil])
+			}
 		case 'r':
 			it.SetReverse()
 		case 'f':
